@@ -192,6 +192,7 @@ class PedSim:
         self.in_probe = 0
         self._llk = {}
         self.caches = []
+        self.seen = set()
         self.zero_err = bool((self.err[self.parents >= 0] == 0).any()) if (self.parents >= 0).any() else False
 
     def viol(self, cls, msg, **detail):
@@ -323,22 +324,27 @@ class PedSim:
         return self.result
 
     def audit_caches(self):
-        seen = set()
+        """Every value a cache serves for (sample, genotype) equals the likelihood recomputed on that
+        sample's own reads - queried through the real cached function (no assumption about keys)."""
+        seen_c = set()
         for cache in self.caches:
-            if id(cache) in seen:
+            if id(cache) in seen_c:
                 continue
-            seen.add(id(cache))
-            for key, val in list(cache.items()):
-                s, gi = int(key[0]), int(key[1])
-                if s < 0:
-                    continue
-                g = self.m["jitutils"].index_as_genotype_alleles(gi, int(self.ploidy[s]))
-                fresh = self.fresh_llk(s, g)
+            seen_c.add(id(cache))
+            for (s, g) in sorted(self.seen):
+                ga = self.np.array(g, dtype=self.np.int64)
+                _, _, r, c = self.own_reads[s]
+                self.in_probe += 1
+                try:
+                    val = float(self.real["cached"](r, c, self.haps, s, ga, cache))
+                finally:
+                    self.in_probe -= 1
+                fresh = self.fresh_llk(s, ga)
                 self.ctx.counters.inc("cache_entries_audited")
-                if not rel_close(float(val), fresh):
+                if not rel_close(val, fresh):
                     self.viol("cache_entry_wrong",
-                              "pedigree llk cache holds %r for (sample %d, genotype %r); likelihood recomputed on that sample's own reads is %r"
-                              % (float(val), s, [int(a) for a in g], fresh),
+                              "pedigree llk cache serves %r for (sample %d, genotype %r); likelihood recomputed on that sample's own reads is %r"
+                              % (val, s, list(g), fresh),
                               sample=s, reads_of_sample=len(self.own_reads[s][1]), n_reads=[len(o[1]) for o in self.own_reads])
 
     # -- seams ----------------------------------------------------------
@@ -607,6 +613,7 @@ class PedSim:
         if a["cache"] is not None and not self.in_probe:
             if not any(c is a["cache"] for c in self.caches):
                 self.caches.append(a["cache"])
+            self.seen.add((int(a["sample"]), tuple(int(v) for v in a["genotype_alleles"])))
         if "cache" in self.checks and not self.in_probe:
             s = int(a["sample"])
             fresh = self.fresh_llk(s, a["genotype_alleles"])
